@@ -41,7 +41,7 @@ def _mk_frame(E, f, fr, i):
     return E.variant(f, MSG, "Abort", reason=E.Tok("abort-reason"))
 
 
-def eval_bob(f, frames, accept, proc, send_ok):
+def eval_bob(f, frames, accept, proc, send_ok, raw=False):
     """the acceptor (BobState::run, then into_outcome) evaluated (K6', awaits driven to completion) against a script:
     frames the peer sends (Init/Sync/Abort/ioerr = undecodable, then end of stream), the accept callback's verdict,
     the outcome of each sync_process_message call (reply/done/err) and whether sending succeeds.
@@ -98,6 +98,8 @@ def eval_bob(f, frames, accept, proc, send_ok):
         return "PANIC", st["log"], None, None
     d = E.describe(out, f)
     res = "Ok(ns)" if d == "Ok(ns)" else ("Err(Abort)" if d.startswith("Err(Abort") else ("Err" if d.startswith("Err") else d))
+    if raw:
+        res = d
     final = hp["self"]
     try:
         o2, _, _ = E.run(f, BS + "::into_outcome", [final], {})
@@ -252,7 +254,7 @@ def r1(ctx):
     ctx.check(d.startswith("BobState(None,peer,Some("), "C10.R1", new.path, "initial-state", "BobState::new(peer) = %s (spec: no namespace yet, an outcome to report)" % d, new.sp)
     max_len = 3 if ctx.tier == "thorough" else 2
     n = 0
-    bad = {"termination": [], "outcome-reportable": [], "protocol": [], "declined-changes-nothing": []}
+    bad = {"termination": [], "outcome-reportable": [], "protocol": [], "declined-changes-nothing": [], "outcome-threaded": []}
     for frames in _scripts(max_len):
         for accept in ("Allow", "Reject"):
             for proc in PROCS:
@@ -267,6 +269,13 @@ def r1(ctx):
                         continue
                     if io is None or io == "PANIC" or io.startswith("UNSUPPORTED"):
                         bad["outcome-reportable"].append("%s: run returned %s leaving %s; into_outcome: %s" % (tag, res, final, io))
+                    # the outcome reported is the progress returned by the last processed message (the session's counters);
+                    # only a failed processing step loses it (the step's progress never came back)
+                    nproc = len([e for e in log if e[0] == "process"])
+                    failed_step = nproc > 0 and nproc <= len(proc) and proc[nproc - 1] == "err"
+                    want_io = "default" if failed_step else "progress%d" % nproc
+                    if io is not None and not io.startswith("UNSUPPORTED") and io != "PANIC" and io != want_io:
+                        bad["outcome-threaded"].append("%s: run returned %s; into_outcome reports %s, the session's last progress is %s" % (tag, res, io, want_io))
                     wres, wev = ref_bob(frames, accept, proc, send_ok)
                     if (res, log) != (wres, wev):
                         bad["protocol"].append("%s: returns %s with effects %s; the protocol describes %s with %s" % (tag, res, log, wres, wev))
@@ -274,6 +283,8 @@ def r1(ctx):
                         bad["declined-changes-nothing"].append("%s: store reached: %s" % (tag, log))
     ctx.check(not bad["termination"], "C10.R1", RUN, "acceptor.returns-on-every-script", "%d scripts (frames up to length %d over {Init,Sync,Abort,undecodable}, then close) evaluated; panics / not evaluable: %s" % (n, max_len, bad["termination"][:3]), run.sp)
     ctx.check(not bad["outcome-reportable"], "C10.R1", RUN, "acceptor.outcome-reportable-after-every-exit", "into_outcome evaluated on the state left by each of the %d runs; failing: %s" % (n, bad["outcome-reportable"][:3]), run.sp)
+    ctx.check(not bad["outcome-threaded"], "C10.R2", RUN, "acceptor.reports-the-last-progress", "the outcome collected after each of the %d runs is the progress returned by the last processed message "
+              "(what the initiator's counters mirror); deviating: %s" % (n, bad["outcome-threaded"][:3]), run.sp)
     ctx.check(not bad["protocol"], "C10.R2", RUN, "acceptor.protocol-table", "%d scripts compared with the protocol (Init first and once, callback asked before anything is processed, Sync only after Init, Abort/garbage/early close are errors, progress threaded, first failure ends the session with an error); deviating: %s" % (n, bad["protocol"][:3]), run.sp)
     ctx.check(not bad["declined-changes-nothing"], "C10.R3", RUN, "declined-request-touches-nothing", "scripts with a declining callback never reach the store handle; deviating: %s" % bad["declined-changes-nothing"][:3], run.sp)
     ctx.check(n >= 150, "C10.R1", RUN, "acceptor.scripts-enumerated", "%d scripts" % n, run.sp)
